@@ -12,7 +12,7 @@ import (
 func init() {
 	Drivers["C13"] = driveC13
 	Levels["C13"] = "exploration"
-	Rules["C13"] = "one run = k=2..6 virtual goroutines x <=4 operations each over values built before they start: 1-3 shared Resolved (keyword-rich, multi-document, dynamic-scope and defaults worlds), the shared Schema trees, shared read-only instances and one shared ForOptions; operations Validate / ApplyDefaults(private instance, also struct holders) / Marshal / Unmarshal / CloneSchemas / Resolve(private simulated Loader) / ForType(shared options) / Equal; a seeded scheduler decides who runs at every operation boundary and plants pre-emptions inside operations (density 0-3; in a third of the runs all goroutines hammer one shared value with one family of operations - Validate/ApplyDefaults, Marshal/Clone/Unmarshal, ForType, or Resolve - under dense pre-emption), with memo-table miss injection and cold or warm caches; executed in a plain and in a -race build. Oracles: no race report with a jsonschema frame in both stacks; every result equals the result of the same operation run sequentially on an independently built identical world; a sequential re-run on the shared values after the join still matches. Non-trivial = >=1 pre-emption inside an operation AND two goroutines operate on the same shared value. Distinct = hash(world, operations) x goroutine-schedule hash."
+	Rules["C13"] = "one run = k=2..6 virtual goroutines x <=4 operations each over values built before they start: 1-3 shared Resolved (keyword-rich, annotation-centred, multi-document, dynamic-scope, mixed-draft, wide and defaults worlds), one ResolveOptions value per schema shared by all goroutines,, the shared Schema trees, shared read-only instances and one shared ForOptions; operations Validate / ApplyDefaults(private instance, also struct holders) / Marshal / Unmarshal / CloneSchemas / Resolve(private simulated Loader) / ForType(shared options) / Equal; a seeded scheduler decides who runs at every operation boundary and plants pre-emptions inside operations (density 0-3; in a third of the runs all goroutines hammer one shared value with one family of operations - Validate/ApplyDefaults, Marshal/Clone/Unmarshal, ForType, or Resolve - under dense pre-emption), with memo-table miss injection and cold or warm caches; executed in a plain and in a -race build. Oracles: no race report with a jsonschema frame in both stacks; every result equals the result of the same operation run sequentially on an independently built identical world; a sequential re-run on the shared values after the join still matches. Non-trivial = >=1 pre-emption inside an operation AND two goroutines operate on the same shared value. Distinct = hash(world, operations) x goroutine-schedule hash."
 	Assumptions["C13"] = append([]string{
 		"the hand-off between virtual goroutines uses raw pipe system calls from //go:norace code, so the execution is serial and repeatable while the race detector still sees the library's accesses as concurrent; the detector is only as good as its shadow memory (4 cells per 8 bytes)",
 		"a race report is attributed to the library only if both stacks contain a frame of package jsonschema; any other report is a harness bug and makes the check exit 2",
